@@ -40,6 +40,9 @@ def to_sympy(ast, dt, assume=None):
         return _FN[ast[1]](to_sympy(ast[2], dt, assume))
     if t == "pow":
         return sympy.Pow(to_sympy(ast[1], dt, assume), sympy.Integer(ast[2]))
+    if t == "clip":
+        a, lo, hi = (to_sympy(x_, dt, assume) for x_ in ast[1:4])
+        return sympy.Piecewise((lo, a < lo), (hi, a > hi), (a, True))
     a, b = to_sympy(ast[1], dt, assume), to_sympy(ast[2], dt, assume)
     if t == "add":
         return a + b
